@@ -285,7 +285,7 @@ def interleave_plain(case):
 
 
 def gen_input(rng, paired, fastq, containers=("",), p_interleaved=0.3, p_multimember=0.3, p_interleaved_fasta=0.0,
-              p_comments_two_files=0.0, p_stdin=0.0, p_bam=0.0):
+              p_comments_two_files=0.0, p_stdin=0.0, p_bam=0.0, p_devfd=0.0):
     ext = rng.choice([".fastq", ".fq"] if fastq else [".fasta", ".fa"])
     if rng.random() < 0.1:
         ext = ""  # no extension: xopen/dnaio must detect by content
@@ -323,7 +323,10 @@ def gen_input(rng, paired, fastq, containers=("",), p_interleaved=0.3, p_multime
     if fastq and not paired and rng.random() < p_bam:
         # unaligned BAM (the instrument's or samtools' output): gzip members around the BAM stream
         out = {"layout": "single", "ext": ".bam", "containers": [""], "members": [rng.randint(1, 4)], "comments": 0, "bam": True}
-    if nfiles == 1 and rng.random() < p_stdin:
+    if rng.random() < p_devfd and ".gz" not in conts and not out.get("bam"):
+        # bash process substitution: every input is a pipe given by its /dev/fd/N path
+        out["devfd"] = True
+    elif nfiles == 1 and rng.random() < p_stdin:
         # 'cutadapt ... -': the file is fed to standard input (a pipe when it fits into one)
         out["stdin"] = rng.choice(["pipe", "pipe", "file"])
         if conts[0] == ".gz" or out.get("bam"):
@@ -474,6 +477,8 @@ def default_profile():
         p_devnull=0.0,
         p_case_name=0.0,
         same_name_without_demux=False,  # (C20) same-named adapters also without {name} in the output
+        p_enospc=0.0,  # (C04) disk full behind one output file
+        p_devfd=0.0,  # (C06, C12) inputs through /dev/fd/N pipes (process substitution)
         p_empty_adapter_file=0.0,  # (C05) an adapter file without records for the read that has no adapters
         p_same_r2=0.0,  # (C06, C20) R2 gets exactly the adapters of R1, names included
         p_bam=0.0,  # (C04, C06, C12) single-end input as unaligned BAM
@@ -849,7 +854,7 @@ def gen_case(rng, profile=None):
     elif r_ < P["p_quiet"] + P["p_debug"]:
         outs.append(["--debug"])
     inp = gen_input(rng, paired, fastq, P["in_containers"], p_interleaved_fasta=P["p_interleaved_fasta"],
-                    p_comments_two_files=P["p_comments_two_files"], p_stdin=P["p_stdin"], p_bam=P["p_bam"])
+                    p_comments_two_files=P["p_comments_two_files"], p_stdin=P["p_stdin"], p_bam=P["p_bam"], p_devfd=P["p_devfd"])
     if inp.get("stdin") == "pipe" and records and not big and rng.random() < 0.12:
         # a long read arriving through a pipe (its record is larger than the pipe's 64 KiB capacity)
         r_ = rng.choice(records)
@@ -1026,8 +1031,13 @@ def gen_knobs(rng, case, P=None):
     knobs["emfile_at"] = e.randint(1, 12) if e.random() < P["p_emfile"] else None
     knobs["relpaths"] = e.random() < 0.3  # run in the data directory and name all files relative to it
     knobs["preexist"] = e.random() < 0.15  # the named output files exist already (a re-run)
+    if e.random() < P["p_enospc"]:
+        # the file system runs full while one of the outputs is written; the error surfaces at flush/close
+        knobs["enospc"] = {"nth": e.randint(1, 3), "quota": e.choice([0, e.randint(1, 400), e.randint(400, 4000)])}
     if case["input"].get("stdin"):
         knobs["stdin_kind"] = case["input"]["stdin"]
+    if case["input"].get("devfd"):
+        knobs["devfd"] = True
     return knobs
 
 
